@@ -21,6 +21,7 @@ import enum
 import inspect
 import json
 import os
+import random
 import time
 import uuid
 
@@ -490,6 +491,17 @@ class Enc:
         self.cp = {}      # (conv, lexical) -> py token | None (raises)
         self.qattrs = {XSI_TYPE}
         self.qtags = set()
+        # list-valued lexical forms (xs:list): element tags whose text is a list, attribute names whose value is a list
+        self.list_attrs = {e['xml'] for ce in tab.entries for e in ce['props'] if e['kind'] == 'attrList'}
+        self.list_tags = {e['xml'] for ce in tab.entries for e in ce['props'] if e['kind'] == 'textList' and e['xml']}
+        self_list = {ci for ci, ce in enumerate(tab.entries) if any(e['kind'] == 'textList' and not e['xml'] for e in ce['props'])}
+        for ce in tab.entries:
+            for e in ce['props']:
+                if e['kind'] in ('sub', 'subList') and e.get('xml') and e['cls'] >= 0 and \
+                        any(issubclass(tab.clist[k], tab.clist[e['cls']]) or issubclass(tab.clist[e['cls']], tab.clist[k]) for k in self_list):
+                    self.list_tags.add(e['xml'])
+        for k in self_list:
+            self.list_tags.add(clark(qname_for(tab.clist[k])))
         # element tags / attribute names are numbers in the model (0 = xsi:type); schema names first, in sorted order
         self.names = {XSI_TYPE: 0}
         for nm in sorted({e['xml'] for ce in tab.entries for e in ce['props'] if e.get('xml')}
@@ -756,6 +768,32 @@ def foreign_rewrite(enc: Enc, node, variant: str):
     return etree.fromstring(etree.tostring(build(node, None, 0)))
 
 
+_LIST_SEPARATORS = [' ', '\n', '\t', '\r\n', '  ', ' \n   ', '\t\t', '\n\n']
+
+
+def list_whitespace_variant(enc: Enc, node, rng):
+    """the same document with hand-formatted xs:list values: items of list-valued element text separated by tabs / line
+    feeds / CR LF / runs and wrapped in white space; list-valued attributes with runs of spaces and leading / trailing
+    spaces (literal tabs and line feeds in attribute values are normalised to spaces by every XML parser).
+    Returns (document, number of lists changed)."""
+    doc = etree.fromstring(etree.tostring(node))
+    n = 0
+    for el in doc.iter():
+        if not isinstance(el.tag, str):
+            continue
+        if el.tag in enc.list_tags and el.text and el.text.split() and not len(el):
+            items = el.text.split()
+            lead, trail = rng.choice(['', '\n  ', ' ', '\t']), rng.choice(['', '\n', '  ', '\r\n'])
+            el.text = lead + ''.join(it + (rng.choice(_LIST_SEPARATORS) if k < len(items) - 1 else '') for k, it in enumerate(items)) + trail
+            n += 1
+        for k, v in list(el.attrib.items()):
+            if k in enc.list_attrs and v.split():
+                items = v.split(' ')
+                el.set(k, rng.choice(['', ' ', '  ']) + rng.choice(['  ', '   ', ' ']).join(i for i in items if i) + rng.choice(['', ' ']))
+                n += 1
+    return etree.fromstring(etree.tostring(doc)), n
+
+
 def foreign_oracle(ctx, tab: Table, enc: Enc, obj, node, case, variant):
     """a document with the same content written by a foreign stack must be read to the same value"""
     key = sh.class_key(type(obj))
@@ -768,6 +806,10 @@ def foreign_oracle(ctx, tab: Table, enc: Enc, obj, node, case, variant):
         ctx.count('foreign:rewrite-not-equivalent')     # harness problem, never blame the implementation for it
         return
     ctx.count('foreign:' + variant)
+    doc, nlists = list_whitespace_variant(enc, doc, random.Random(len(etree.tostring(doc))))
+    if nlists:
+        ctx.count('foreign:list-whitespace')
+        variant += '+list-whitespace'
     try:
         back = parse_node(type(obj), doc)
     except Exception as ex:  # noqa: BLE001
